@@ -871,6 +871,8 @@ impl ServerSim {
             }
             Err(p) => return Err(self.v("panic", format!("respond() panicked: {}", panic_msg(p)))),
         }
+        let log = world::with(|w| w.take_log());
+        self.account_log(&log, st)?;
         if let Some(cl) = self.clients.get_mut(&cid) {
             if cl.closed {
                 self.late_respond_after_close += 1;
